@@ -1,9 +1,10 @@
 import Aiorpcx.Common.Hex
 import Aiorpcx.C15.Model
 /-! Line-protocol driver for the C15 model.
-    in : `<fixed 0|1> <maxDelay> ; <event> ; ...`  events: `S s m flags` `P` `R flags` `L` `A dt`
-         (flags = string of 0/1 or `-`)
-    out: per event `obs=.. cs=.. cl=.. rd=.. nb=.. t=..`, separated by ` ; ` -/
+    in : `<fixed 0|1> <maxDelay> ; <event> ; ...`  events: `S s m flags` `B s m flags` `P`
+         `R flags` `L` `A dt` `C m` `G 0|1`   (flags = string of 0/1 or `-`; `B` = a big message:
+         the model abstracts the size, so it is the same event as `S`)
+    out: per event `obs=.. cs=.. cl=.. lo=.. rd=.. nb=.. t=..`, separated by ` ; ` -/
 open Aiorpcx Aiorpcx.C15
 
 def parseFlags (s : String) : List Bool :=
@@ -12,6 +13,10 @@ def parseFlags (s : String) : List Bool :=
 def parseEvent (s : String) : Option Event :=
   match (s.splitOn " ").filter (· ≠ "") with
   | ["S", a, b, f] => do pure (.send (← a.toNat?) (← b.toNat?) (parseFlags f))
+  | ["B", a, b, f] => do pure (.send (← a.toNat?) (← b.toNat?) (parseFlags f))
+  | ["C", m] => do pure (.cancel (← m.toNat?))
+  | ["G", "0"] => some (.gclose false)
+  | ["G", "1"] => some (.gclose true)
   | ["P"] => some .pause
   | ["R", f] => some (.resume (parseFlags f))
   | ["L"] => some .lost
@@ -30,9 +35,10 @@ def obsStr : Obs → String
   | .blocked s m => s!"bl{s}.{m}"
   | .lost => "lost"
   | .invalid => "inv"
+  | .cancelled s m => s!"ca{s}.{m}"
 
 def record (t : T) (o : List Obs) : String :=
-  s!"obs={String.intercalate "," (o.map obsStr)} cs={b01 t.canSend} cl={b01 t.closing} rd={b01 t.reading} nb={t.blocked.length} t={t.now}"
+  s!"obs={String.intercalate "," (o.map obsStr)} cs={b01 t.canSend} cl={b01 t.closing} lo={b01 t.lost} rd={b01 t.reading} nb={t.blocked.length} t={t.now}"
 
 def handle (line : String) : String :=
   match (line.splitOn ";").map (·.trimAscii.toString) with
